@@ -175,6 +175,88 @@ Section ProcessProofs.
     - change (step true st (HipGet k p)) with (hip_get st k p). rewrite hip_get_spec. simpl. auto.
   Qed.
 
+  (* ---------- Monte-Carlo work packages ---------- *)
+  Notation final := (final C R run hash resolve runh K keq keyof).
+  Definition outs (fixed : bool) (st : state) (ops : list (op C)) : list (outcome R) := map (@eout C R K) (trace fixed st ops).
+
+  Lemma final_cons fixed st o ops : final fixed st (o :: ops) = final fixed (fst (step fixed st o)) ops.
+  Proof. reflexivity. Qed.
+
+  Lemma final_app fixed : forall a st b, final fixed st (a ++ b) = final fixed (final fixed st a) b.
+  Proof. unfold Process.final. intros a st b. apply fold_left_app. Qed.
+
+  Lemma outs_cons fixed st o ops : outs fixed st (o :: ops) = snd (step fixed st o) :: outs fixed (fst (step fixed st o)) ops.
+  Proof. unfold outs. rewrite trace_cons. reflexivity. Qed.
+
+  Lemma outs_app fixed : forall a st b, outs fixed st (a ++ b) = outs fixed st a ++ outs fixed (final fixed st a) b.
+  Proof.
+    induction a as [|o a IH]; intros st b; [reflexivity|].
+    rewrite <- app_comm_cons, !outs_cons, final_cons, IH. reflexivity.
+  Qed.
+
+  Lemma replace_nth_last {A} (l : list A) x y : replace_nth (length l) x (l ++ [y]) = l ++ [x].
+  Proof. induction l as [|h t IH]; simpl; [reflexivity|]. now rewrite IH. Qed.
+
+  Lemma nth_error_last {A} (l : list A) y : nth_error (l ++ [y]) (length l) = Some y.
+  Proof. induction l as [|h t IH]; simpl; auto. Qed.
+
+  Definition mc_outcome (c : C) : outcome R := match run c with Some r => Returned r false | None => Raised end.
+
+  (* one iteration: the embedded client is new, so the request always RUNS the iteration's own content *)
+  Lemma mc_iter_spec st p c :
+    (forall d, resolve d p = p) ->
+    outs true st (mc_iter (length (clients st)) p c) = [Done; Done; mc_outcome c; Done]
+    /\ exists cl, final true st (mc_iter (length (clients st)) p c)
+                  = mkState (cwd st) (argv st) ((p, None) :: (p, Some c) :: files st) (clients st ++ [cl]).
+  Proof.
+    intros Ha. unfold mc_iter, mc_outcome.
+    rewrite !outs_cons. rewrite !final_cons. cbn [step Process.step fst snd].
+    set (st1 := Process.set_files C R K st ((p, Some c) :: files st)).
+    set (st2 := Process.set_clients C R K st1 (clients st1 ++ [mkClient true []])).
+    assert (Hn : nth_error (clients st2) (length (clients st)) = Some (mkClient true [])).
+    { subst st2 st1. simpl. apply nth_error_last. }
+    assert (He : expected (files st2) (resolve DSrc p) = run c).
+    { subst st2 st1. rewrite Ha. unfold Process.expected, Process.expected_with. simpl. now rewrite Nat.eqb_refl. }
+    destruct (client_get_cases true st2 (length (clients st)) p)
+      as [[Hx _]|[(cl & r & Hx & _ & Hl & _)|(cl & Hx & _ & [[Hr E]|(r & Hr & E)])]].
+    - rewrite Hn in Hx. discriminate.
+    - rewrite Hn in Hx. inversion Hx; subst cl. simpl in Hl. discriminate.
+    - rewrite E. rewrite He in Hr. rewrite Hr. split; [reflexivity|].
+      exists (mkClient true []). subst st2 st1. destruct st; reflexivity.
+    - rewrite E. rewrite He in Hr. rewrite Hr. split; [reflexivity|].
+      rewrite Hn in Hx. inversion Hx; subst cl.
+      exists (mkClient true [(keyof p (fs_lookup (resolve (cwd st) p) ((p, Some c) :: files st)), r)]).
+      subst st2 st1. destruct st as [d a f cs]. simpl. unfold Process.set_files. simpl.
+      rewrite replace_nth_last. reflexivity.
+  Qed.
+
+  (* a whole work package, from any state (other clients with anything in their caches, any files): cwd and argv
+     are unchanged at the end, every embedded request gives the run of the iteration content (or fails when that
+     content does not run), the clients that existed before are untouched *)
+  Theorem mc_package_spec : forall ps st c,
+    (forall p, In p ps -> forall d, resolve d p = p) ->
+    let st' := final true st (mc_package (length (clients st)) ps c) in
+    cwd st' = cwd st /\ argv st' = argv st
+    /\ firstn (length (clients st)) (clients st') = clients st
+    /\ filter (fun o => match o with Done => false | _ => true end)
+              (outs true st (mc_package (length (clients st)) ps c)) = repeat (mc_outcome c) (length ps).
+  Proof.
+    induction ps as [|p ps IH]; intros st c Ha.
+    - simpl. repeat split; auto. apply firstn_all.
+    - cbn [mc_package length repeat]. cbv zeta.
+      destruct (mc_iter_spec st p c (Ha p (or_introl eq_refl))) as [Ho [cl Hf]].
+      rewrite final_app, outs_app, Hf, Ho.
+      set (st1 := mkState (cwd st) (argv st) ((p, None) :: (p, Some c) :: files st) (clients st ++ [cl])).
+      assert (Hl : S (length (clients st)) = length (clients st1)).
+      { subst st1. simpl. rewrite app_length. simpl. lia. }
+      rewrite Hl. destruct (IH st1 c (fun q Hq => Ha q (or_intror Hq))) as (E1 & E2 & E3 & E4).
+      rewrite E1, E2. repeat split; auto.
+      + apply (f_equal (firstn (length (clients st)))) in E3. rewrite firstn_firstn in E3.
+        rewrite Nat.min_l in E3 by lia. rewrite E3. subst st1. simpl.
+        rewrite firstn_app, firstn_all, Nat.sub_diag. simpl. apply app_nil_r.
+      + rewrite filter_app, E4. unfold mc_outcome. simpl. destruct (run c); reflexivity.
+  Qed.
+
   (* ---------- FRAME: a request changes nothing but the cache of the client it went through ---------- *)
   Lemma replace_nth_length {A} n (x : A) l : length (replace_nth n x l) = length l.
   Proof. revert n. induction l as [|h t IH]; intros [|n]; simpl; auto. Qed.
